@@ -215,7 +215,17 @@ impl Drop for DropProbeReader { fn drop(&mut self) { unsafe { READER_DROPS += 1;
 #[kani::proof]
 #[kani::unwind(3)]
 #[kani::stub(unsafe_libyaml::yaml_parser_delete, parser_delete_probe)]
-fn parser_drop_releases_parser_and_read_state() {
+fn parser_drop_releases_parser_and_read_state() { parser_drop_body(); }
+
+/// The same scenario under CBMC's memory-leak check (run in an invocation of its own with `--cbmc-args --memory-leak-check`):
+/// after the Parser is dropped no heap block it owned is left allocated -- the ReadState box is FREED, not merely
+/// destructed in place.
+#[kani::proof]
+#[kani::unwind(3)]
+#[kani::stub(unsafe_libyaml::yaml_parser_delete, parser_delete_probe)]
+fn parser_drop_frees_every_block() { parser_drop_body(); }
+
+fn parser_drop_body() {
 	let read_state = Box::into_raw(Box::new(ReadState { reader: DropProbeReader, bouncer: Vec::with_capacity(1), error: None }));
 	let raw: Box<yaml_parser_t> = unsafe { Box::new(MaybeUninit::<yaml_parser_t>::zeroed().assume_init()) };
 	let p = Parser { parser: raw, read_state };
